@@ -23,7 +23,7 @@ RULE = ('linkers over 0..4 scripted submodels (outcome scripts of length <= 4 pe
         'span, unknown ids, differing spans, differing lags/leads; twin run linker({m}) vs m for parser-built models. '
         'non-trivial = distinct (scripts, selection, options) case with at least one submodel')
 ASSUMPTIONS = ['"pre-hook" / "post-hook" of an iteration are evaluate_t_before / evaluate_t_after; solve_t_before / solve_t_after run once per period',
-               'only finite outcomes are scripted: the statement does not cover numerical-error policies for linkers']
+               'a non-finite check variable has not "moved by less than tol" (NaN / inf differences never count as converged); no errors= policy is asserted for linkers']
 ANCHORS = [('fsic/core/linkers.py', 'BaseLinker.__init__'), ('fsic/core/linkers.py', 'BaseLinker.solve_t'),
            ('fsic/core/linkers.py', 'BaseLinker.evaluate_t'), ('fsic/core/linkers.py', 'BaseLinker.solve')]
 REQUIRED_COUNTERS = {'runs_compared': 500, 'iterations_observed': 1000, 'declared_solved_movements_measured': 100, 'single_model_twins': 20}
@@ -180,14 +180,14 @@ def run_case(ctx, case):
                 ctx.violation('submodel-stamp', f'selected submodel {key!r}: status/iterations {m.status[t]!r}/{m.iterations[t]}, linker has {want["status"]!r}/{want["iterations"]}', case)
                 return
             got = [float(m.A[t]), float(m.B[t])]
-            if got != want['vals'][key]:
+            if not all(scripted.feq(a, b) for a, b in zip(got, want['vals'][key])):
                 ctx.violation('submodel-values', f'selected submodel {key!r}: values {got}, expected {want["vals"][key]}', case)
                 return
         else:
             if scripted.changed_cells(before[key], scripted.snapshot_model(m)):
                 ctx.violation('unselected-submodel-touched', f'unselected submodel {key!r} changed: {sorted(scripted.changed_cells(before[key], scripted.snapshot_model(m)))}', case)
                 return
-    if float(linker.L[t]) != want['vals']['_'][0]:
+    if not scripted.feq(float(linker.L[t]), want['vals']['_'][0]):
         ctx.violation('linker-values', f'linker L[t] = {float(linker.L[t])}, expected {want["vals"]["_"][0]}', case)
         return
     # other periods untouched
@@ -239,12 +239,18 @@ def run_shard(ctx):
         for key in keys:
             L = rng.randrange(0, 4)
             subs[key] = [[rng.choice(OUTS), rng.choice(['same', 'same', 'small', 'big'])] for _ in range(L)]
+            if rng.random() < 0.12 and subs[key]:
+                # a check variable that turns non-finite (and possibly heals): NaN / inf "movement" is never "less than tol"
+                j = rng.randrange(len(subs[key]))
+                subs[key][j][rng.randrange(2)] = rng.choice(['nan', 'pinf', 'ninf'])
+                if rng.random() < 0.5 and j + 1 < len(subs[key]):
+                    subs[key][j + 1] = ['zero', 'zero']
         tol = rng.choice([0.5, 0.5, 1e-10, 1e-4])
         sel = None
         if keys and rng.random() < 0.6:
             sel = rng.sample(keys, rng.randrange(0, len(keys) + 1))
         case = dict(n=4, t=rng.choice([0, 1, 2, 3]), subs={repr(k2) if not isinstance(k2, str) else k2: v for k2, v in subs.items()},
-                    lscript=[rng.choice(OUTS) for _ in range(rng.randrange(0, 3))], tol=tol, selected=None,
+                    lscript=[rng.choice(OUTS + (['nan', 'pinf'] if rng.random() < 0.1 else [])) for _ in range(rng.randrange(0, 3))], tol=tol, selected=None,
                     min_iter=rng.choice([0, 0, 1, 2, 3]), max_iter=rng.choice([0, 1, 2, 4, 6]), failures=rng.choice(['raise', 'ignore']))
         # keys must survive JSON: use their repr as the actual key
         keymap = {k2: (repr(k2) if not isinstance(k2, str) else k2) for k2 in keys}
